@@ -30,6 +30,10 @@ SAMPLE_METHOD = '''    @decorated
 SAMPLE_PLAIN = '''def plain(x, y=3):
     return recurse(x)
 '''
+# code objects of lambdas / comprehensions in the signature come before the function's own among the constants
+SAMPLE_LAMBDA_DEFAULT = '''def plain(x, y=lambda v: [w for w in v]):
+    return recurse(y(x))
+'''
 
 
 class FakeCode:
@@ -67,6 +71,7 @@ SCENARIOS = {
     "method-with-closure-and-class-cell": dict(source=SAMPLE_METHOD, freevars=("__class__", "captured"), first=40),
     "method-with-closure-listed-otherwise": dict(source=SAMPLE_METHOD, freevars=("captured", "__class__"), first=40),
     "plain-function": dict(source=SAMPLE_PLAIN, freevars=(), first=7),
+    "function-with-a-lambda-default": dict(source=SAMPLE_LAMBDA_DEFAULT, freevars=(), first=7),
 }
 
 
@@ -158,8 +163,8 @@ def check(ctx, name):
         problems["carried-over"].append("defaults, keyword defaults or annotations are not the method's")
     if out.__name__ != "method[new]" or out.__code__.co_name != "method[new]":
         problems["carried-over"].append(f"the new function is called {out.__name__!r} / its code {out.__code__.co_name!r}, not the requested name")
-    if out.__code__.co_argcount != (3 if "self" in sc["source"] else 2):
-        problems["carried-over"].append("the new code is not the method's definition")
+    if out.__code__.co_argcount != (3 if "self" in sc["source"] else 2) or "recurse" not in out.__code__.co_names:
+        problems["carried-over"].append("the new code is not the method's own definition (another code constant of the compiled tree - a lambda or comprehension of the signature - was taken)")
     # the names the rewriter was told are bound in the globals to entry point, table and the function's own code
     if len(facts["made"]) != 1:
         raise AnalysisError("the rewriter is not instantiated exactly once")
@@ -192,11 +197,11 @@ LAW_TEXT = {
 }
 
 
-def law(ctx, *names):
+def law(ctx, *names, scenarios=None):
     rc = A.recompiler(ctx.repo)
     ctx.touch(rc)
     cache = ctx.cache.setdefault("recode_checked", {})
-    for sc in SCENARIOS:
+    for sc in scenarios or SCENARIOS:
         if sc not in cache:
             cache[sc] = check(ctx, sc)
         for name in names:
